@@ -1,6 +1,7 @@
 import SaphyrVerif.Lemmas.C13_Emit
 import SaphyrVerif.Lemmas.C13_Lines
 import SaphyrVerif.Model.EmitQuote
+import SaphyrVerif.Lemmas.EmitPVal
 /-!
 # C13 — every data-model shape round-trips as one well-formed YAML document
 
@@ -9,22 +10,27 @@ Spec: `Spec/EmitReader.lean` (`erase`: what a Serde value means as YAML data; `r
 reader of the emitted dialect, validated against the real parser on every emitted text of the
 differential run).
 
-Full statement: `C13_Full`.  It is FALSE for the code as it is (model and code agree byte for byte on
-every generated case): the (F) theorems below give one witness per defect class found.  Proved part:
-`emit_roundtrip_partial` — arbitrary nesting of
+Full statement: `C13_Full`.  It is still FALSE for the code (model and code agree byte for byte on
+every generated case): `empty_as_braces = false` writes an empty collection as nothing (pinned by the
+crate's own tests, see `empty_no_braces_counterexample`).  Proved part: `emit_roundtrip_partial` —
+arbitrary nesting of
 
   null (unit / `None`), booleans, integers, safe strings (`[a-z][a-z0-9]*` minus the reserved words, not
-  longer than `folded_wrap_chars`), `Some`, ordinary newtype structs, block sequences and tuples,
-  block mappings / structs with distinct safe string keys (known or unknown length), unit variants,
-  newtype variants
+  longer than `folded_wrap_chars`), `Some`, ordinary newtype structs, block sequences, tuples and
+  tuple structs, block mappings / structs (known or unknown length) whose keys are safe strings or
+  COMPOSITE — sequences, mappings, variants with data of the fragment, written `? key` / `: value` —
+  and pairwise different as data, unit, newtype, tuple and struct variants (also without fields)
 
-under `indent_step = 2`, `empty_as_braces = true`, `compact_list_indent = false`, `quote_all = false`,
-`yaml_12 = false`, `tagged_enums = false` (any `min_fold_chars` / `folded_wrap_chars` /
-`prefer_block_scalars`), for every scalar-text function that satisfies the safe-leaf contract.
-Outside the proved fragment: tuple structs, tuple / struct variants, non-string and composite keys,
-the presentation wrappers, strings outside the safe class (C12), the other option values (each has a
-counterexample below, except `yaml_12` whose defect — no `---` after the directive — was repaired by
-fix 832e31b), anchors.
+under EVERY `indent_step ≥ 1` (since fix 995e25e the layout is right for every step), `compact_list_indent`
+on or off (fixes 8740963 fb15f4e), `empty_as_braces = true`, `quote_all = false`, `yaml_12 = false`,
+`tagged_enums = false` (any `min_fold_chars` / `folded_wrap_chars` / `prefer_block_scalars`), for every
+scalar-text function that satisfies the safe-leaf contract.
+Outside the proved fragment: scalar keys other than safe strings (null / bool / number keys), the
+presentation wrappers, strings outside the safe class (C12), the other option values, anchors.  The defect classes this property
+found in tuple structs, tuple / struct variants, composite keys, `compact_list_indent` and
+`indent_step` 1 / ≥ 3 (now inside the proved fragment) are repaired (fixes f421f34 beca5d5 8740963 fb15f4e 6b2e131 995e25e): the former
+counterexample theorems are regression theorems below (`*_regression`: the repaired model output and
+the reader on it).
 -/
 namespace SaphyrVerif.Emit
 open SaphyrVerif
@@ -39,41 +45,43 @@ section
 variable {o : Opts} {f : ScalarFns}
 
 /-- (T, the emitter invariant) On the fragment the state machine — whatever the layout flags do
-on the way — writes exactly the lines of the flag-free layout function: dashes of a sequence at depth
-`d` at column `2d`, keys of a mapping at depth `m` at column `2m`, a collection after `key:` one
-level deeper on the following lines, the first entry of a collection after `- ` on the dash line. -/
+on the way — writes exactly the lines of the flag-free layout function, for every `indent_step = k ≥ 1`:
+a collection after `key:` (keys at column `c`) on the following lines at column `c + k` (a sequence
+under `compact_list_indent` inside a mapping: at column `c`), the first
+entry of a collection after `- ` (dash at column `c`) on the dash line and all its entries at column
+`c + 2`, `Variant:` after `key:` on the next line at column `c + k` and its payload under it. -/
 theorem emit_layout_partial (ho : FragOpts o) (hf : SafeContract f) (v : SVal)
-    (hv : inFrag o.foldedWrapCol v = true) : emit o f v = .ok (renderLines (layRoot v)) :=
+    (hv : inFrag o.foldedWrapCol v = true) : emit o f v = .ok (renderLines (layRoot o.indentStep o.compactListIndent v)) :=
   emit_eq_layout ho hf v hv
 
 /-- (T) C13 on the fragment: serialization succeeds and the text reads back as exactly the value. -/
 theorem emit_roundtrip_partial (ho : FragOpts o) (hf : SafeContract f) (v : SVal)
     (hv : inFrag o.foldedWrapCol v = true) : ∃ t, emit o f v = .ok t ∧ readDoc t = some (erase v) :=
-  ⟨_, emit_eq_layout ho hf v hv, read_layout v hv⟩
+  ⟨_, emit_eq_layout ho hf v hv, read_layout ho.indent v hv⟩
 
 /-- (T) C13 "one document": on the fragment no line of the output is a document marker (`---` / `...`
 at column 0) or a directive (no prologue at all, since `yaml_12 = false`), no line is blank or a
 comment, and the lines of the text are exactly the layout lines. -/
 theorem emit_single_document (ho : FragOpts o) (hf : SafeContract f) (v : SVal)
     (hv : inFrag o.foldedWrapCol v = true) :
-    ∃ t, emit o f v = .ok t ∧ toLines t = layRoot v ∧
+    ∃ t, emit o f v = .ok t ∧ toLines t = layRoot o.indentStep o.compactListIndent v ∧
       ∀ l ∈ toLines t, isDocMarker l "---".toList = false ∧ isDocMarker l "...".toList = false ∧
         l.text.head? ≠ some '%' ∧ l.isSkippable = false := by
-  have hg := (root_lines v hv).1
+  have hg := (root_lines (cp := o.compactListIndent) ho.indent v hv).1
   refine ⟨_, emit_eq_layout ho hf v hv, toLines_render _ hg, ?_⟩
   intro l hl
   rw [toLines_render _ hg] at hl
   have h := hg l hl
   exact ⟨(goodLine_not_marker h).1, (goodLine_not_marker h).2,
-    goodLine_head_ne h '%' (by decide) (by decide) (by decide) (by decide), goodLine_notSkippable h⟩
+    goodLine_head_ne h '%' (by decide) (by decide) (by decide) (by decide) (by decide) (by decide), goodLine_notSkippable h⟩
 
 end
 
-/-! ## counterexamples (F): the code violates C13 outside the fragment
+/-! ## regression theorems: the defect classes repaired in the code
 
-Each theorem states what the emitter model writes (identical to the implementation's output: the
-witnesses are part of the differential corpus) and what the reference reader (= the real parser on
-these texts) makes of it. -/
+Each theorem states what the emitter model writes for the witness of a former defect class (identical
+to the implementation's output: the witnesses are part of the differential corpus) and that the
+reference reader (= the real parser on these texts) reads the value back. -/
 
 /-- `yaml_12 = true` (repaired by fix 832e31b, found by this property: the directive used to be
 written without the `---` it requires and every document was rejected): the prologue is followed by
@@ -81,62 +89,87 @@ the document start marker and the document reads back.  `yaml_12` is still outsi
 example : emit { yaml12 := true } implFns (.int 7) = .ok "%YAML 1.2\n---\n7\n".toList ∧
     readDoc "%YAML 1.2\n---\n7\n".toList = some (.int 7) := ⟨rfl, rfl⟩
 
-/-- (F) `indent_step = 1`: the second item of a nested sequence is indented less than the first. -/
-theorem indent_step_1_counterexample :
-    emit { indentStep := 1 } implFns (.seq [.seq [.int 1, .int 2]]) = .ok "- - 1\n - 2\n".toList ∧
-    readDoc "- - 1\n - 2\n".toList = none := ⟨rfl, rfl⟩
+/-- (regression, fix 995e25e) `indent_step = 1`: the items of a nested sequence are aligned under its
+first dash (the second item used to be indented less than the first: not YAML). -/
+theorem indent_step_1_regression :
+    emit { indentStep := 1 } implFns (.seq [.seq [.int 1, .int 2]]) = .ok "- - 1\n  - 2\n".toList ∧
+    readDoc "- - 1\n  - 2\n".toList = some (erase (.seq [.seq [.int 1, .int 2]])) := ⟨rfl, by decide +kernel⟩
 
-/-- (F) `indent_step = 3`: a sequence inside a sequence item continues at column 3 while its first
-dash is at column 2: `[[1, 2]]` reads as `[["1 - 2"]]`. -/
-theorem indent_step_3_counterexample :
-    emit { indentStep := 3 } implFns (.seq [.seq [.int 1, .int 2]]) = .ok "- - 1\n   - 2\n".toList ∧
-    readDoc "- - 1\n   - 2\n".toList = some (.seq [.seq [.str "1 - 2".toList]]) := ⟨rfl, rfl⟩
+/-- (regression, fix 995e25e) `indent_step = 3`: same (`[[1, 2]]` used to read as `[["1 - 2"]]`); a
+mapping under the nested sequence keeps its keys aligned too. -/
+theorem indent_step_3_regression :
+    emit { indentStep := 3 } implFns (.seq [.seq [.int 1, .int 2]]) = .ok "- - 1\n  - 2\n".toList ∧
+    emit { indentStep := 3 } implFns (.seq [.seq [SVal.struct [("k".toList, .int 1), ("m".toList, .seq [.int 2])]]]) =
+      .ok "- - k: 1\n    m:\n       - 2\n".toList ∧
+    readDoc "- - k: 1\n    m:\n       - 2\n".toList =
+      some (erase (.seq [.seq [SVal.struct [("k".toList, .int 1), ("m".toList, .seq [.int 2])]]])) :=
+  ⟨rfl, rfl, by decide +kernel⟩
 
-/-- (F) `empty_as_braces = false`: an empty sequence is written as nothing and reads as null. -/
+/-- (regression, fix 8740963) `compact_list_indent = true`: an empty sequence after a block sibling
+stays on the line of its key (it used to land at the parent's column on a line of its own). -/
+theorem compact_list_indent_regression :
+    emit { compactListIndent := true } implFns
+      (SVal.struct [("a".toList, .seq [.int 1]), ("b".toList, .seq [])]) = .ok "a:\n- 1\nb: []\n".toList ∧
+    readDoc "a:\n- 1\nb: []\n".toList =
+      some (erase (SVal.struct [("a".toList, .seq [.int 1]), ("b".toList, .seq [])])) := ⟨rfl, by decide +kernel⟩
+
+/-- (regression, fix fb15f4e) `compact_list_indent = true`: a sequence used as a composite key keeps
+its later items under the `? ` (they used to be written at the column of the `?`). -/
+theorem compact_list_indent_key_regression :
+    emit { compactListIndent := true } implFns (.map true [(.seq [.int 1, .int 2], .int 1)]) =
+      .ok "? - 1\n  - 2\n: 1\n".toList ∧
+    readDoc "? - 1\n  - 2\n: 1\n".toList = some (erase (.map true [(.seq [.int 1, .int 2], .int 1)])) :=
+  ⟨rfl, by decide +kernel⟩
+
+/-- (regression, fix beca5d5) a tuple variant in mapping-value position goes under its key (it used
+to be glued to the key: `k:Tv:`). -/
+theorem tuple_variant_position_regression :
+    emit {} implFns (SVal.struct [("k".toList, .tupleVariant "Tv".toList [.int 1])]) = .ok "k:\n  Tv:\n    - 1\n".toList ∧
+    readDoc "k:\n  Tv:\n    - 1\n".toList =
+      some (erase (SVal.struct [("k".toList, .tupleVariant "Tv".toList [.int 1])])) := ⟨rfl, by decide +kernel⟩
+
+/-- (regression, fix beca5d5) tuple / struct variants without fields are `Variant: []` / `Variant: {}`
+(they used to read as null payloads). -/
+theorem empty_variant_regression :
+    emit {} implFns (.tupleVariant "Tv".toList []) = .ok "Tv: []\n".toList ∧
+    emit {} implFns (.structVariant "Sv".toList []) = .ok "Sv: {}\n".toList ∧
+    readDoc "Tv: []\n".toList = some (erase (.tupleVariant "Tv".toList [])) ∧
+    readDoc "Sv: {}\n".toList = some (erase (.structVariant "Sv".toList [])) :=
+  ⟨rfl, rfl, by decide +kernel, by decide +kernel⟩
+
+/-- (regression, fix f421f34) a tuple struct without fields is `[]` (it used to emit nothing: the next
+key landed on the same line). -/
+theorem tuple_struct_empty_regression :
+    emit {} implFns (SVal.struct [("k".toList, .tupleStruct []), ("z".toList, .int 9)]) = .ok "k: []\nz: 9\n".toList ∧
+    readDoc "k: []\nz: 9\n".toList =
+      some (erase (SVal.struct [("k".toList, .tupleStruct []), ("z".toList, .int 9)])) := ⟨rfl, by decide +kernel⟩
+
+/-- (regression, fix f421f34) nested tuple structs nest (`A(B(1))` used to read as `[null, 1]`). -/
+theorem tuple_struct_position_regression :
+    emit {} implFns (.tupleStruct [.tupleStruct [.int 1]]) = .ok "- - 1\n".toList ∧
+    readDoc "- - 1\n".toList = some (erase (.tupleStruct [.tupleStruct [.int 1]])) := ⟨rfl, by decide +kernel⟩
+
+/-- (regression, fix 6b2e131) the block-sequence value of a composite key starts after `: ` and
+continues under it (it used to continue at the wrong column and read as `["1 - 2"]`). -/
+theorem complex_key_regression :
+    emit {} implFns (.map true [(.seq [], .seq [.int 1, .int 2])]) = .ok "? []\n: - 1\n  - 2\n".toList ∧
+    readDoc "? []\n: - 1\n  - 2\n".toList = some (erase (.map true [(.seq [], .seq [.int 1, .int 2])])) :=
+  ⟨rfl, by decide +kernel⟩
+
+/-! ## counterexample (F): the defect class still present -/
+
+/-- (F) `empty_as_braces = false`: an empty sequence is written as nothing and reads as null (the
+text is pinned by the crate's tests/empty_map_braces.rs: the option's legacy layout). -/
 theorem empty_no_braces_counterexample :
     emit { emptyAsBraces := false } implFns (SVal.struct [("k".toList, .seq [])]) = .ok "k:\n".toList ∧
     readDoc "k:\n".toList = some (.map [(.str "k".toList, .null)]) := ⟨rfl, rfl⟩
 
-/-- (F) `compact_list_indent = true`: an empty sequence after a block sibling lands at the parent's
-column on its own line. -/
-theorem compact_list_indent_counterexample :
-    emit { compactListIndent := true } implFns
-      (SVal.struct [("a".toList, .seq [.int 1]), ("b".toList, .seq [])]) = .ok "a:\n- 1\nb:\n[]\n".toList ∧
-    readDoc "a:\n- 1\nb:\n[]\n".toList = none := ⟨rfl, rfl⟩
-
-/-- (F) default options: a tuple variant in mapping-value position is glued to the key. -/
-theorem tuple_variant_position_counterexample :
-    emit {} implFns (SVal.struct [("k".toList, .tupleVariant "Tv".toList [.int 1])]) = .ok "k:Tv:\n  -  1\n".toList ∧
-    readDoc "k:Tv:\n  -  1\n".toList = some (.map [(.str "k:Tv".toList, .seq [.int 1])]) := ⟨rfl, rfl⟩
-
-/-- (F) default options: tuple / struct variants without fields read as null payloads. -/
-theorem empty_variant_counterexample :
-    emit {} implFns (.tupleVariant "Tv".toList []) = .ok "Tv:\n".toList ∧
-    emit {} implFns (.structVariant "Sv".toList []) = .ok "Sv:\n".toList ∧
-    readDoc "Tv:\n".toList = some (.map [(.str "Tv".toList, .null)]) := ⟨rfl, rfl, rfl⟩
-
-/-- (F) default options: a tuple struct without fields emits nothing: the next key lands on the
-same line. -/
-theorem tuple_struct_empty_counterexample :
-    emit {} implFns (SVal.struct [("k".toList, .tupleStruct []), ("z".toList, .int 9)]) = .ok "k: z: 9\n".toList ∧
-    readDoc "k: z: 9\n".toList = none := ⟨rfl, rfl⟩
-
-/-- (F) default options: nested tuple structs are flattened (`A(B(1))` reads as `[null, 1]`). -/
-theorem tuple_struct_position_counterexample :
-    emit {} implFns (.tupleStruct [.tupleStruct [.int 1]]) = .ok "  - \n  - 1\n".toList ∧
-    readDoc "  - \n  - 1\n".toList = some (.seq [.null, .int 1]) := ⟨rfl, rfl⟩
-
-/-- (F) default options: the block-sequence value of a composite key continues at the wrong column. -/
-theorem complex_key_counterexample :
-    emit {} implFns (.map true [(.seq [], .seq [.int 1, .int 2])]) = .ok "? []\n:\n- 1\n  - 2\n".toList ∧
-    readDoc "? []\n:\n- 1\n  - 2\n".toList = some (.map [(.seq [], .seq [.str "1 - 2".toList])]) := ⟨rfl, rfl⟩
-
 /-- (F) the full statement does not hold for the code as it is. -/
 theorem C13_Full_false : ¬ C13_Full := by
   intro h
-  have h1 := h { indentStep := 1 } (.seq [.seq [.int 1, .int 2]]) _ (by decide) indent_step_1_counterexample.1
-  rw [indent_step_1_counterexample.2] at h1
-  exact absurd h1 (by simp)
+  have h1 := h { emptyAsBraces := false } (SVal.struct [("k".toList, .seq [])]) _ (by decide) empty_no_braces_counterexample.1
+  rw [empty_no_braces_counterexample.2] at h1
+  exact absurd h1 (by decide)
 
 /-! ## the hypotheses are satisfiable (non-vacuity) -/
 
@@ -147,11 +180,37 @@ def sampleValue : SVal :=
     ("ports".toList, .seq [.int 8080, .int (-1), .seq [.bool true, .none], .seq []]),
     ("nested".toList, .map false [(.str "a".toList, .newtypeVariant "nv".toList (.seq [SVal.struct [("x".toList, .unit), ("z".toList, .map true [])]])),
                                   (.str "b".toList, .some (.unitVariant "e".toList "va".toList))]),
+    ("variants".toList, .tupleStruct [.tupleVariant "tv".toList [.int 1, .tupleStruct []], .tupleVariant "te".toList [],
+                                      SVal.structVariantOf "sv".toList [("f".toList, .structVariant "se".toList [])]]),
+    ("keys".toList, .map true [(.seq [.int 1, .seq []], .seq [.int 2]),
+                               (SVal.struct [("x".toList, .int 1), ("z".toList, .int 2)], SVal.struct [("x".toList, .int 3)]),
+                               (.newtypeVariant "nv".toList (.seq [.int 1]), .tupleVariant "tv".toList []),
+                               (.str "plain".toList, .seq [.map false [(.map true [], .map true [])]])]),
     ("last".toList, .newtypeStruct (.tuple [.int 1, SVal.struct []]))]
 
 example : inFrag 80 sampleValue = true := by decide
-example : FragOpts ({} : Opts) := ⟨rfl, rfl, rfl, rfl, rfl, rfl⟩
-example : FragOpts ({ minFoldChars := 0, foldedWrapCol := 5, preferBlockScalars := false } : Opts) := ⟨rfl, rfl, rfl, rfl, rfl, rfl⟩
+example : FragOpts ({} : Opts) := ⟨by decide, rfl, rfl, rfl, rfl⟩
+example : FragOpts ({ indentStep := 1, minFoldChars := 0, foldedWrapCol := 5, preferBlockScalars := false } : Opts) :=
+  ⟨by decide, rfl, rfl, rfl, rfl⟩
+/-- composite keys at work (model output; identical to the implementation's), default step and step 4 -/
+example : emit {} implFns (.map true [(.seq [.int 1, .seq []], .seq [.int 2]),
+      (SVal.struct [("x".toList, .int 1), ("z".toList, .int 2)], SVal.struct [("x".toList, .int 3)]),
+      (.newtypeVariant "nv".toList (.seq [.int 1]), .tupleVariant "tv".toList [])]) =
+    .ok "? - 1\n  - []\n: - 2\n? x: 1\n  z: 2\n: x: 3\n? nv:\n    - 1\n: tv: []\n".toList := by rfl
+example : emit { indentStep := 4 } implFns (.seq [.map true [(.seq [.int 1, .seq []], .seq [.int 2]),
+      (SVal.struct [("x".toList, .int 1), ("z".toList, .int 2)], SVal.struct [("x".toList, .int 3)])]]) =
+    .ok "- ? - 1\n    - []\n  : - 2\n  ? x: 1\n    z: 2\n  : x: 3\n".toList := by rfl
+example : FragOpts ({ indentStep := 3, compactListIndent := true } : Opts) := ⟨by decide, rfl, rfl, rfl, rfl⟩
+/-- `compact_list_indent` at work (model output; identical to the implementation's) -/
+example : emit { compactListIndent := true } implFns (SVal.struct [("a".toList, .seq [.int 1, SVal.struct [("b".toList, .seq [.int 2])]]),
+      ("c".toList, .seq []), ("d".toList, .tupleVariant "tv".toList [.int 3])]) =
+    .ok "a:\n- 1\n- b:\n  - 2\nc: []\nd:\n  tv:\n  - 3\n".toList := by rfl
+example : FragOpts ({ indentStep := 7 } : Opts) := ⟨by decide, rfl, rfl, rfl, rfl⟩
+/-- the theorem at work for `indent_step = 3` and `1` (model output; identical to the implementation's) -/
+example : emit { indentStep := 3 } implFns (SVal.struct [("k".toList, .seq [.int 1, .seq [.none, SVal.struct [("a".toList, .int 1), ("b".toList, .tupleVariant "tv".toList [.int 2])]]])]) =
+    .ok "k:\n   - 1\n   - - null\n     - a: 1\n       b:\n          tv:\n             - 2\n".toList := by rfl
+example : emit { indentStep := 1 } implFns (SVal.struct [("k".toList, .seq [.int 1, .seq [.none, SVal.struct [("a".toList, .int 1), ("b".toList, .tupleVariant "tv".toList [.int 2])]]])]) =
+    .ok "k:\n - 1\n - - null\n   - a: 1\n     b:\n      tv:\n       - 2\n".toList := by rfl
 /-- the crate's scalar functions on sample safe strings (the contract itself is C12's) -/
 example : implFns.isPlainSafe "demo".toList = true ∧ implFns.isPlainValueSafe "demo".toList false true = true ∧
     implFns.isPlainValueSafe "x1".toList true false = true := by decide
